@@ -66,31 +66,36 @@ def sort_of(t):
     elif k == 'text': s = (Text,)
     elif k == 'lang': s = (z3.DeclareSort('Lang'),)
     elif k == 'none':
-        d = z3.Datatype('NoneT'); d.declare('none'); d = d.create(); s = (d, d.none)
+        d = z3.Datatype('NoneT'); d.declare('none_value'); d = d.create(); s = (d, d.constructor(0)())
     elif k == 'set': s = (z3.ArraySort(sort_of(t.args[0]), z3.BoolSort()),)
     elif k == 'map':
         ks, vs = sort_of(t.args[0]), sort_of(t.args[1])
-        d = z3.Datatype('Map_' + _safe(t.args[0].key + '__' + t.args[1].key))
-        d.declare('mk', ('dom', z3.ArraySort(ks, z3.BoolSort())), ('val', z3.ArraySort(ks, vs)))
-        d = d.create(); s = (d, d.mk, d.dom, d.val)
+        nm = 'Map_' + _safe(t.args[0].key + '__' + t.args[1].key)
+        d = z3.Datatype(nm)
+        d.declare('mk_' + nm, ('dom_' + nm, z3.ArraySort(ks, z3.BoolSort())), ('val_' + nm, z3.ArraySort(ks, vs)))
+        d = d.create(); s = (d, d.constructor(0), d.accessor(0, 0), d.accessor(0, 1))
     elif k == 'list':
         es = sort_of(t.args[0])
-        d = z3.Datatype('List_' + _safe(t.args[0].key))
-        d.declare('mk', ('len', z3.IntSort()), ('arr', z3.ArraySort(z3.IntSort(), es)))
-        d = d.create(); s = (d, d.mk, d.len, d.arr)
+        nm = 'List_' + _safe(t.args[0].key)
+        d = z3.Datatype(nm)
+        d.declare('mk_' + nm, ('len_' + nm, z3.IntSort()), ('arr_' + nm, z3.ArraySort(z3.IntSort(), es)))
+        d = d.create(); s = (d, d.constructor(0), d.accessor(0, 0), d.accessor(0, 1))
     elif k == 'tup':
-        d = z3.Datatype('Tup_' + _safe('__'.join(a.key for a in t.args)))
-        d.declare('mk', *[('f%d' % i, sort_of(a)) for i, a in enumerate(t.args)])
-        d = d.create(); s = (d, d.mk) + tuple(getattr(d, 'f%d' % i) for i in range(len(t.args)))
+        nm = 'Tup_' + _safe('__'.join(a.key for a in t.args))
+        d = z3.Datatype(nm)
+        d.declare('mk_' + nm, *[('%s_f%d' % (nm, i), sort_of(a)) for i, a in enumerate(t.args)])
+        d = d.create(); s = (d, d.constructor(0)) + tuple(d.accessor(0, i) for i in range(len(t.args)))
     elif k == 'opt':
-        d = z3.Datatype('Opt_' + _safe(t.args[0].key))
-        d.declare('none'); d.declare('some', ('get', sort_of(t.args[0])))
-        d = d.create(); s = (d, d.none, d.some, d.get, d.is_none, d.is_some)
+        nm = 'Opt_' + _safe(t.args[0].key)
+        d = z3.Datatype(nm)
+        d.declare('none_' + nm); d.declare('some_' + nm, ('get_' + nm, sort_of(t.args[0])))
+        d = d.create(); s = (d, d.constructor(0)(), d.constructor(1), d.accessor(1, 0), d.recognizer(0), d.recognizer(1))
     elif k == 'rec':
         flds = RECORDS[t.args[0]]
-        d = z3.Datatype('Rec_' + t.args[0])
-        d.declare('mk', *[(f, sort_of(ft)) for f, ft in flds.items()])
-        d = d.create(); s = (d, d.mk) + tuple(getattr(d, f) for f in flds)
+        nm = 'Rec_' + t.args[0]
+        d = z3.Datatype(nm)
+        d.declare('mk_' + nm, *[('%s_%s' % (nm, f), sort_of(ft)) for f, ft in flds.items()])
+        d = d.create(); s = (d, d.constructor(0)) + tuple(d.accessor(0, i) for i in range(len(flds)))
     else:
         raise TypeError('no sort for %r' % (t,))
     _sorts[t.key] = s
@@ -206,6 +211,7 @@ def is_canonical(t):
     if t.kind in ('atom', 'word', 'int', 'bool', 'regexp', 'none', 'set', 'text', 'lang'): return True
     if t.kind in ('tup',): return all(is_canonical(a) for a in t.args)
     if t.kind == 'opt': return is_canonical(t.args[0])
+    if t.kind == 'rec': return all(is_canonical(ft) for ft in RECORDS[t.args[0]].values())
     return False
 
 
